@@ -240,9 +240,68 @@ pub fn run(args: &Args) {
             _ => {}
         }
     }
+    // ---- statements the checker rejects at the top level, in every other position (one and two
+    // levels deep): wherever such a statement is accepted, running it must still end at BASIC level
+    {
+        let pre = "TYPE Card\nValue AS INTEGER\nEND TYPE\nDIM SHARED c AS Card\nc.Value = 3\n";
+        let bad = ["PRINT c", "LPRINT c", "PRINT 1; c", "X% = c", "PRINT c + 1", "c = 5", "PRINT LEN(c.Value.Z)", "FOR I9% = 1 TO 2\nNEXT J9%", "PRINT c.Nope"];
+        let positions = [
+            "{B}",
+            "IF 1 = 1 THEN\n{B}\nEND IF",
+            "IF 1 = 2 THEN\nPRINT 0\nELSEIF 1 = 1 THEN\n{B}\nEND IF",
+            "IF 1 = 2 THEN\nPRINT 0\nELSE\n{B}\nEND IF",
+            "SELECT CASE 2\nCASE 1\nPRINT 0\nCASE 2\n{B}\nEND SELECT",
+            "SELECT CASE 7\nCASE 1\nPRINT 0\nCASE ELSE\n{B}\nEND SELECT",
+            "FOR Q9% = 1 TO 1\n{B}\nNEXT",
+            "W9% = 0\nWHILE W9% < 1\nW9% = 1\n{B}\nWEND",
+            "DO\n{B}\nLOOP UNTIL 1 = 1",
+        ];
+        let in_sub = "P9\nEND\nSUB P9\n{B}\nEND SUB";
+        let in_fn = "Z9% = F9%\nEND\nFUNCTION F9%\n{B}\nEND FUNCTION";
+        for b in bad.iter() {
+            // the statement alone must be rejected, otherwise it says nothing
+            let alone = format!("{}{}\n", pre, b);
+            evaluations += 1;
+            if matches!(run_program(&alone, &RunOpts { budget: 10_000, ..Default::default() }), Outcome::Ran(_)) {
+                sum.count("rejectable_statement_accepted_at_top_level_(skipped)");
+                continue;
+            }
+            let mut bodies: Vec<String> = vec![];
+            for p1 in positions.iter().skip(1) {
+                bodies.push(p1.replace("{B}", b));
+                for p2 in positions.iter().skip(1) {
+                    bodies.push(p1.replace("{B}", &p2.replace("{B}", b).replace("Q9%", "R9%").replace("W9%", "V9%")));
+                }
+            }
+            let mut progs: Vec<String> = vec![];
+            for body in bodies.iter() {
+                progs.push(format!("{}{}\n", pre, body));
+                progs.push(format!("{}{}\n", pre, in_sub.replace("{B}", body)));
+                if rng.chance(1, 3) {
+                    progs.push(format!("{}{}\n", pre, in_fn.replace("{B}", body)));
+                }
+            }
+            for src in progs {
+                evaluations += 1;
+                sum.count("rejectable_statement_positions");
+                match run_program(&src, &RunOpts { budget: 10_000, ..Default::default() }) {
+                    Outcome::Ran(r) => {
+                        sum.count("rejectable_statement_accepted_somewhere");
+                        if let End::Panic(m) = &r.end {
+                            sum.violation(ImplViolation { key: format!("accepted-then-panic:{}", panic_key(m)), input: src.replace('\n', " | "), expected: "rejected by the checker (as at the top level), or a BASIC-level outcome".into(), observed: m.clone() });
+                        }
+                    }
+                    Outcome::FrontPanic { stage, msg } => {
+                        sum.violation(ImplViolation { key: format!("front-panic:{}:{}", stage, panic_key(&msg)), input: src.replace('\n', " | "), expected: "an error or an accepted program".into(), observed: msg });
+                    }
+                    _ => {}
+                }
+            }
+        }
+    }
     sum.write(
         &args.out,
         evaluations,
-        "core programs: Safety.check_safe evaluated in Coq on the real instruction list (supported instructions only, the Coq abstraction equals the harness's, the certificate checks) so that the no-internal-failure theorem applies to it. Repertoire: generated programs calling 27 built-in function forms and 12 statement forms plus INPUT / LINE INPUT / READ+DATA / VIEW PRINT / PRINT USING / MID$ assignment with arguments drawn from 30 shapes (all literal types, boundary values, variables, array elements, whole arrays, record values and fields, parenthesised, nested calls), under optional ON ERROR RESUME NEXT, with 5 kinds of standard input incl. random bytes; procedural programs and the repository's programs. Every accepted program must end normally or with a BASIC error; panics are keyed by their message. Non-trivial = distinct accepted programs.",
+        "core programs: Safety.check_safe evaluated in Coq on the real instruction list (supported instructions only, the Coq abstraction equals the harness's, the certificate checks) so that the no-internal-failure theorem applies to it. Repertoire: generated programs calling 27 built-in function forms and 12 statement forms plus INPUT / LINE INPUT / READ+DATA / VIEW PRINT / PRINT USING / MID$ assignment with arguments drawn from 30 shapes (all literal types, boundary values, variables, array elements, whole arrays, record values and fields, parenthesised, nested calls), under optional ON ERROR RESUME NEXT, with 5 kinds of standard input incl. random bytes; procedural programs and the repository's programs; nine statements the checker rejects at the top level (PRINT of a record, a record in arithmetic, NEXT for another counter, an unknown member ...) placed in every block position one and two levels deep (THEN, ELSEIF, ELSE, CASE, CASE ELSE, FOR, WHILE, DO, SUB, FUNCTION). Every accepted program must end normally or with a BASIC error; panics are keyed by their message. Non-trivial = distinct accepted programs.",
     );
 }
